@@ -828,9 +828,27 @@ def check_dtypes(prog, rep, f, pub, call, entry, c):
         ws = [a for a in atoms if isinstance(a, App) and a.name == 'arr']
         vs = [a for a in atoms if isinstance(a, App) and a.name == 'read']
         fl = [a for a in atoms if isinstance(a, Sym) and a.name in f.params + f.kwonly]
+        # numeric parameters of the kernel (tolerances handed down by the wrapper) take the value the wrapper gives them for a
+        # plain call: a constant, or the default of the public parameter they come from
+        nums = {}
+        for a in list(fl):
+            got_ = c.kc.bound.get(a.name)
+            while isinstance(got_, tuple) and len(got_) >= 3 and got_[0] == 'call' and got_[1] in ('builtins.float', ('global', 'float'), 'numpy.float64') and \
+                    len(got_[2]) == 1:
+                got_ = got_[2][0]           # float(x) of a number is that number
+            val_ = None
+            if isinstance(got_, tuple) and got_[:1] == ('const',) and isinstance(got_[1], (int, float)) and not isinstance(got_[1], bool):
+                val_ = got_[1]
+            elif isinstance(got_, tuple) and got_[:1] == ('param',) and got_[1] in pub.defaults():
+                dv_ = const(pub.defaults()[got_[1]])
+                if isinstance(dv_, (int, float)) and not isinstance(dv_, bool):
+                    val_ = dv_
+            if val_ is not None:
+                nums[a] = F(str(val_)) if isinstance(val_, float) else F(val_)
+                fl.remove(a)
         centres = [App('read', [data, Rat.sym(Ly.var), Rat.sym(Lx.var)]) for Ly, Lx in c.passes]
         shape_ok = len(ws) == 1 and ws[0].args[0] in c.valuewin and len(vs) == 1 and vs[0] in centres and len(fl) <= 1 and \
-            not [a for a in atoms if isinstance(a, Sym) and a not in fl and '@' not in a.name]
+            not [a for a in atoms if isinstance(a, Sym) and a not in fl and a not in nums and '@' not in a.name]
         if not shape_ok:
             rep.add('Q2', f, entry, 'matching predicate at line %d' % line, line, None,
                     'not a predicate of (value window, centre cell, dtype flag): %s' % show(P, 200))
@@ -839,6 +857,7 @@ def check_dtypes(prog, rep, f, pub, call, entry, c):
 
         def holds(wv, vv, flag):
             env = {w: F(wv), v: F(vv)}
+            env.update(nums)
             if fl:
                 env[fl[0]] = F(flag)
             return eval_cond_full(P, env)
